@@ -434,7 +434,7 @@ fn mode_applyparam(_seed: u64, limit: usize) -> Vec<serde_json::Value> {
             break;
         }
         n += 1;
-        let input = serde_json::json!({"blueprint": "m.v.{spend,else} + m.w.mint", "plutus_version": ver});
+        let input = serde_json::json!({"blueprint": "m.v.{spend,else} + m.w.mint + m.vx.spend + mm.v.spend + m.v_2.else", "plutus_version": ver});
         let r = guarded(|| -> Result<(), String> {
             let mk = |title: &str| Validator {
                 title: title.to_string(),
@@ -445,7 +445,7 @@ fn mode_applyparam(_seed: u64, limit: usize) -> Vec<serde_json::Value> {
                 program: wrap(ver, base_program()),
                 definitions: Definitions::new(),
             };
-            let vals = vec![mk("m.v.spend"), mk("m.v.else"), mk("m.w.mint")];
+            let vals = vec![mk("m.v.spend"), mk("m.v.else"), mk("m.w.mint"), mk("m.vx.spend"), mk("mm.v.spend"), mk("m.v_2.else")];
             let mut defs_json = serde_json::Map::new();
             defs_json.insert("Int".into(), serde_json::json!({"dataType": "integer"}));
             let bp_json = serde_json::json!({
